@@ -1,4 +1,5 @@
-"""Replay / bounded stand-in for C14: real FileUploadHandler on real trees with symlinks and injected storage faults."""
+"""Replay / bounded stand-in for C14: real FileUploadHandler on real trees with symlinks and injected storage faults,
+and - for the protocol part - the server scenario bank (what content the protocol hands to the upload handler)."""
 import sys
 
 sys.path.insert(0, "/verif")
@@ -6,4 +7,10 @@ from replay.common import load, done  # noqa: E402
 from replay import fs_bank  # noqa: E402
 
 p = load()
+ob = p.get("obligation", "")
+if "GeminiServerProtocol" in ob or ob == "__bounded__":
+    from replay import server_bank
+    r = server_bank.bank("C14")
+    if r.get("confirmed") or "GeminiServerProtocol" in ob:
+        done(**r)
 done(**fs_bank.bank("C14"))
